@@ -38,7 +38,10 @@ var (
 	rawName = "B\u00fccher.Example"
 )
 
-var aliasPool = []string{"x.io", "Y.io", "shared.Example.COM", "api.k8s.local", "tenant-1", "edge", "alpha", "beta", "gamma", longName, idnName, rawName}
+var aliasPool = []string{"x.io", "Y.io", "shared.Example.COM", "api.k8s.local", "tenant-1", "edge", "alpha", "beta", "gamma", longName, idnName, rawName,
+	// server names that contain a port: a Host never equals them (its port is ignored), so they match nothing - and must not
+	// capture or disturb the host they look like
+	"x.io:8443", "Beta:443"}
 
 // base names of the probe universe: every name that can be claimed plus two that never are ("alph" is a prefix of a
 // cluster name, "ghost.io" is unrelated)
@@ -128,6 +131,7 @@ type world struct {
 	hist        int
 	traffic     bool
 	stableBase  bool
+	mid         *midState
 	everDeleted map[string]bool
 	errLeft     map[string]int  // pending object whose sync returned an error: deliveries the queue will still make
 	queried     map[string]bool // host strings already used as SNI / Host before (GetConfigForClient, SNIVerifyOptions, handshake)
@@ -243,6 +247,9 @@ func (w *world) step(ev Event, g *vkit.Rand, deep bool) {
 	var rotHosts []variant
 	if strings.HasPrefix(ev.Note, "rotate") {
 		for _, n := range w.model.NamesOf(ev.Name) {
+			if strings.Contains(n, ":") {
+				continue // a server name with a port can never be an SNI value (RFC 6066), nor equal a Host whose port is ignored
+			}
 			vs := variantsOf(n)
 			rotHosts = append(rotHosts, vs[0], vs[2])
 		}
@@ -262,7 +269,9 @@ func (w *world) step(ev Event, g *vkit.Rand, deep bool) {
 		obj := buildObject(ev.Obj, w.endpointOf(ev.Obj.Cluster))
 		o := w.gw.SetLister(obj)
 		w.lister[ev.Name] = ev.Obj
-		sr = w.gw.Deliver(o)
+		postA := w.model.Clone()
+		postA.Apply(ev.Obj)
+		w.duringDelivery(ev.Name, postA, func() { sr = w.gw.Deliver(o) })
 		wasLive := w.model.Live(ev.Name)
 		refused = w.model.Apply(ev.Obj)
 		if !refused && !wasLive && w.everDeleted[ev.Name] {
@@ -282,7 +291,9 @@ func (w *world) step(ev Event, g *vkit.Rand, deep bool) {
 		// the queue re-delivers the very object that asked for a requeue; only generated while it still is the lister's
 		// version (re-delivery of a superseded version is C11's subject)
 		o := w.pend[ev.Name]
-		sr = w.gw.Deliver(o)
+		postR := w.model.Clone()
+		postR.Apply(w.pendS[ev.Name])
+		w.duringDelivery(ev.Name, postR, func() { sr = w.gw.Deliver(o) })
 		refused = w.model.Apply(w.pendS[ev.Name])
 		switch {
 		case sr.Requeue:
@@ -308,7 +319,9 @@ func (w *world) step(ev Event, g *vkit.Rand, deep bool) {
 		}
 		r.Count("redeliveries", 1)
 	case "delete":
-		sr = w.gw.Delete(ev.Name)
+		postD := w.model.Clone()
+		postD.Delete(ev.Name)
+		w.duringDelivery(ev.Name, postD, func() { sr = w.gw.Delete(ev.Name) })
 		delete(w.lister, ev.Name)
 		delete(w.pend, ev.Name)
 		delete(w.pendS, ev.Name)
@@ -516,6 +529,10 @@ func (w *world) quiesce(g *vkit.Rand) {
 			continue
 		}
 		for _, n := range claimed(spec) {
+			if strings.Contains(n, ":") {
+				w.r.Count("server_names_with_port_matching_no_host", 1)
+				continue // no Host equals a server name that contains a port: nothing to demand for it
+			}
 			if got, _ := w.resolve(n); got != c {
 				w.events = append(w.events, Event{Kind: "quiescence", Name: c, Note: "nothing left to deliver"})
 				w.violate("C10/quiescence/latest-object-never-applied", fmt.Sprintf("cluster %q: its latest object claims only free or own names %q and the queue has nothing left to deliver, but host %q resolves to %q", c, claimed(spec), n, got),
@@ -1329,6 +1346,7 @@ func sortStrings(s []string) {
 func TestCheck(t *testing.T) {
 	vkit.Run(t, "C10", "exploration", func(r *vkit.R) {
 		initMaterial()
+		installManagerLogSink()
 		go observeQueueContract() // the real pkg/syncqueue, observed next to the other phases (about 8 s of waiting, no CPU)
 		r.Rule("seeded random histories of apply/delete/re-delivery events over 6 cluster names and a 9-entry alias pool (mixed case, includes other clusters' names), " +
 			"with scripted sub-sequences: collisions (a name of another live cluster is claimed, also as the object's own name), alias moves A->B in both orders " +
@@ -1407,6 +1425,7 @@ func TestCheck(t *testing.T) {
 		r.Require(r.Counter("shutdown_cluster_contexts_checked") >= int64(nh), "too few shutdown checks")
 		r.Require(r.Counter("rotations") >= int64(nh/2) && r.Counter("rotation_hosts_used_before_and_after") >= int64(nh) && r.Counter("rotation_handshakes_after") >= int64(nh/4),
 			"too few in-place rotations of TLS material with hosts used before and after")
+		r.Require(r.Counter("mid_update_schedule_points") >= int64(nh*10), "too few schedule points inside updates (the cluster manager's log lines were not seen)")
 		r.Require(r.Counter("quiescence_clusters_checked") >= int64(nh) && r.Counter("quiescence_redeliveries") >= int64(nh/10), "too few quiescence checks")
 		for _, c := range []string{"long-conflict", "refused-replace-then-delete", "replaced-by-duplicate", "rotation", "collision", "move-release-first", "move-claim-first", "rename", "case-change", "delete", "redeliver"} {
 			r.Require(classCount[c] >= nh/20, "scenario class "+c+" under-represented")
